@@ -164,6 +164,19 @@ func blockedState(s string) bool {
 	return false
 }
 
+// blockClass abstracts where a goroutine that never ends is blocked (TracePeer.tla: LocClass).
+func blockClass(g gInfo) string {
+	switch {
+	case g.State == "chan receive" && strings.Contains(g.Top, ".PushRejectMsg"):
+		return "wait"
+	case g.State == "chan send" && strings.Contains(g.Top, ".QueueMessage"):
+		return "put"
+	case g.State == "chan send" && (strings.HasSuffix(g.Top, ".inHandler") || strings.HasSuffix(g.Top, ".outHandler")):
+		return "sc"
+	}
+	return "other"
+}
+
 // peerGoroutines returns the goroutines of the btcd peer package that are
 // not in the baseline.
 func peerGoroutines(baseline map[string]bool) []gInfo {
@@ -714,7 +727,7 @@ func RunScenario(sc Scenario) (tr *Trace) {
 	}
 	var leak []string
 	for _, g := range left {
-		leak = append(leak, g.Proc)
+		leak = append(leak, g.Proc+":"+blockClass(g))
 		tr.Leaks = append(tr.Leaks, fmt.Sprintf("%s [%s] in %s", g.Proc, g.State, strings.TrimPrefix(g.Top, "github.com/btcsuite/btcd/")))
 	}
 	sort.Strings(leak)
